@@ -15,7 +15,7 @@ SPEC = {
              'enter_queue / start / finish records == occurrences seen on an independent channel (callbacks, '
              'census departures, dispatched _fail actions, accepted create_work_order calls, target hooks), '
              'device counters == records; after each traced run the exported JSON == the dispatch log; a case is '
-             'one model; non-trivial = at least 7 different record labels occurred'),
+             'one model; non-trivial = at least 7 different record labels occurred; also: statistics discarded in place between two runs, pools shared by holders of one-decimal amounts'),
     'floors': {'quick': {'record_count_checks': 50000, 'record_content_checks': 10000, 'level_record_checks': 20000,
                          'resource_record_checks': 20000, 'traced_runs': 30, 'trace_entries_compared': 5000},
                'thorough': {'record_count_checks': 1000000, 'record_content_checks': 200000,
